@@ -15,7 +15,7 @@ Theorem C12_resolve_order : forall rs E d name lg,
   | None, None, Some c => rs E c true d lg
   | None, None, None =>
       match e_now E with
-      | None => (RErr (EBinding name), lg)
+      | None => (RErr (EBinding name), runtime_mark :: lg)
       | Some _ => (ROk (VErr (EBinding name)), lg)
       end
   end.
@@ -33,8 +33,9 @@ Theorem C12_call_order : forall rs E d name n st lg,
       else match env_type E name with
            | Some (VType tn) =>
                (do vals <- resolve_args rs E d args;
+                do _ <- note_clock E (asks_clock_ty tn vals);
                 do r <- mlift (construct_type (e_now E) tn vals); mret (None, push r st2)) lg1
-           | _ => (if folding E then mfail ERuntime else mret (None, push (VErr ERuntime) st2)) lg1
+           | _ => (if folding E then mfail_runtime ERuntime else mret (None, push (VErr ERuntime) st2)) lg1
            end
   | (o, lg1) => (mcast o, lg1)
   end.
